@@ -9,6 +9,20 @@ NOTES = ("Technique family: static analysis only. Every check extracts the progr
 _TB = ("Trusted: rustc nightly front end (HIR/MIR, types, trait resolution), the hcx export, the rule tables. ")
 
 CLAIMED = {
+    "C10": {
+        "text": "Decides one structural necessary condition of the clauses about division by the last prime (rounding "
+                "identical in coefficient and NTT form, the BGV variant): in the four kernels, for every base order and "
+                "size, no residue of the dropped prime enters the arithmetic modulo another prime unreduced (it is reduced "
+                "under that prime, copied under a comparison of the two moduli, or operated on under its own prime), and "
+                "every in-place operation of src/util/rns.rs on residue slot s uses the precomputed operand, modulus and "
+                "NTT table of prime s (slot and index expressions compared as symbolic polynomials).",
+        "note": _TB + "Not decided: every integer specification itself (CRT bijectivity, conversion error bounds, "
+                "Montgomery / floor / Shenoy-Kumaresan exactness, round-to-nearest, value modulo t, scale-and-round) — "
+                "value-level facts outside static shape analysis; the BEHZ converters iterate with zip adaptors and "
+                "expose no slot arithmetic to the rule.",
+        "technique": "symbolic slot / prime-index polynomials + syntactic dominance by reductions and modulus comparisons over typed HIR",
+        "design_ref": "DESIGN.md §9.2 (R-RESDOM), §9.5",
+    },
     "C08": {
         "text": "Decides a necessary condition of exactness for all public primitives of util::basic, "
                 "util::uintsmallmod and util::number_theory: every non-constant output depends (data or control) on "
@@ -224,10 +238,6 @@ _NYB = "rules designed (DESIGN.md §4) but not built yet in this tree; not claim
 NOT_APPLICABLE = {
     "C07": "every clause compares a reported integer with exact big-integer arithmetic on runtime phase/noise "
            "values; no necessary condition is visible in the shape of the code (DESIGN.md §5)",
-    "C10": "every clause is an integer specification of an RNS routine (conversion error bounds, rounding); the only "
-           "structural necessary condition in reach (converters applied to regions of their own base widths) needs a "
-           "symbolic-dimension engine with base equalities that was not built to a never-alarming standard; a "
-           "prototype was withdrawn (DESIGN.md §9.2, §9.5)",
     "C19": "every clause is about where coefficients land as a function of runtime indices and counts; static "
            "shape rules do not bound them (DESIGN.md §5)",
 }
